@@ -22,6 +22,12 @@ Theorem C04_prfplus_overflow : forall (hmac : hasher -> bytes -> bytes -> bytes)
 Proof. exact prfplus_overflow. Qed.
 Print Assumptions C04_prfplus_overflow.
 
+(** for any primitive whatsoever the loop of prfplus ends (the model's fuel is never exhausted) *)
+Theorem C04_prfplus_terminates : forall (hmac : hasher -> bytes -> bytes -> bytes) h (K S : bytes) (n : Z),
+  prfplus hmac h K S n <> Diverged.
+Proof. exact prfplus_terminates. Qed.
+Print Assumptions C04_prfplus_terminates.
+
 (** SKEYSEED and the seven SK_* keys of an initial IKE_SA, for every RFC suite (3 PRFs x 3 integrity algorithms x
     AES key lengths), all nonces, SPIs and secrets; in particular the key material never exceeds 255 blocks *)
 Theorem C04_ike_keys : forall (hmac : hasher -> bytes -> bytes -> bytes),
